@@ -1,3 +1,4 @@
+#define _GNU_SOURCE
 /* C14 operations on a generated module: structure lifecycle histories under the allocation ledger.
  *
  *   hist <failk|-1>[t] <step>;<step>;...
@@ -7,9 +8,11 @@
  *         decr                   asn_decode of the remembered buffer from the first unconsumed octet to its end
  *         reset                  ASN_STRUCT_RESET, then the structure is compared with zeros
  *         free                   ASN_STRUCT_FREE, sptr = NULL
- *         enc:<syn>              asn_encode_to_new_buffer, buffer released (asn_encode with a null callback when the
- *                                structure was left by a decode that did not return RC_OK); encb:<syn> always buffers
+ *         enc:<syn>              asn_encode_to_new_buffer, buffer released
  *         print | check          asn_fprint to /dev/null | asn_check_constraints
+ *                                (enc/print/check are executed only while the structure holds a completely decoded
+ *                                 value: last decode returned RC_OK and no RESET since; otherwise `skip`;
+ *                                 encb:<syn> / printf execute on whatever is there)
  *       A decode step is executed only when the API allows it (structure NULL / just reset, or `decr`
  *       after RC_WMORE of a restartable syntax); otherwise it is reported as `skip`.
  *       A step prefixed by `!` runs with the failk-th allocation (counted from the start of that step) failing.
@@ -80,7 +83,7 @@ static void c14_report_hang(FILE *out) {
     if(!shown) fputc('?', out);
     lg_release_leaks(); lg_reset();
 }
-#define LIBCALL(stmt) do { c14_armed = 1; alarm(C14_HANG_SECS); LIBCALL(stmt); alarm(0); c14_armed = 0; } while(0)
+#define LIBCALL(stmt) do { c14_armed = 1; alarm(C14_HANG_SECS); lg_enabled = 1; stmt; lg_enabled = 0; alarm(0); c14_armed = 0; } while(0)
 
 /* copies of the private definitions in OCTET_STRING.c (decode-time stack reachable through _asn_ctx.ptr) */
 struct c14_stack_el {
@@ -210,6 +213,9 @@ static int is_zero(const void *p, size_t n) {
 
 static int c14_null_cb(const void *b, size_t n, void *k) { (void)b; (void)n; (void)k; return 0; }
 
+/* buffers owned by the harness; static so that a line abandoned by the hang guard does not leak them */
+static uint8_t *c14_rem, *c14_tmp, *c14_b1, *c14_b2;
+
 static int op_hist(int argc, char **argv, FILE *out) {
     if(argc != 3) { fputs("bad-op", out); return 1; }
     int trees = strchr(argv[1], 't') != 0;
@@ -217,17 +223,21 @@ static int op_hist(int argc, char **argv, FILE *out) {
     static FILE *devnull;
     if(!devnull) devnull = fopen("/dev/null", "w");
     void *sptr = 0; int state = ST_CLEAN; int partial = 0;
-    uint8_t *rem = 0; size_t rem_len = 0, rem_off = 0; char rem_syn[8] = "";
+    size_t rem_len = 0, rem_off = 0; char rem_syn[8] = "";
     int zeroed = 1;
+    free(c14_rem); c14_rem = 0; free(c14_tmp); c14_tmp = 0;
     lg_reset(); lg_set_trace(trees); c14_unknown = 0;
+    c14_guard_init();
     char *stepv[256]; int nsteps = 0; char *save = 0;
     for(char *s = strtok_r(argv[2], ";", &save); s && nsteps < 255; s = strtok_r(0, ";", &save)) stepv[nsteps++] = s;
     char implicit[] = "free";
     stepv[nsteps++] = implicit;
+    if(sigsetjmp(c14_jb, 1)) { c14_report_hang(out); return 1; }
     for(int si = 0; si < nsteps; si++) {
         char *s = stepv[si];
         int final = (si == nsteps - 1);
         int armed = 0;
+        c14_cur_step = si;
         if(*s == '!') { armed = 1; s++; }
         long a0 = lg_alloc_count(); size_t mark = lg_trace_mark();
         char *f[4] = {0, 0, 0, 0}; int nf = 0; char *sv2 = 0;
@@ -236,28 +246,28 @@ static int op_hist(int argc, char **argv, FILE *out) {
         fprintf(out, "%s ", final ? "end" : name);
         if(armed && failk > 0) lg_arm(failk);
         if(!strcmp(name, "dec") || !strcmp(name, "decp") || !strcmp(name, "decr")) {
-            const uint8_t *buf = 0; size_t len = 0; uint8_t *tmp = 0; const char *syn = rem_syn; int ok = 1;
+            size_t len = 0; const char *syn = rem_syn; int ok = 1;
+            free(c14_tmp); c14_tmp = 0;
             if(!strcmp(name, "decr")) {
-                if(state != ST_MORE || !rem) ok = 0;
-                else { len = rem_len - rem_off; tmp = malloc(len ? len : 1); memcpy(tmp, rem + rem_off, len); buf = tmp; }
+                if(state != ST_MORE || !c14_rem) ok = 0;
+                else { len = rem_len - rem_off; c14_tmp = malloc(len ? len : 1); memcpy(c14_tmp, c14_rem + rem_off, len); }
             } else {
                 if(state != ST_CLEAN || nf < 3) ok = 0;
                 else {
-                    free(rem); rem = hx_parse_exact(f[2], &rem_len); rem_off = 0;
+                    free(c14_rem); c14_rem = hx_parse_exact(f[2], &rem_len); rem_off = 0;
                     snprintf(rem_syn, sizeof rem_syn, "%s", f[1]); syn = rem_syn;
-                    if(!rem) ok = 0;
+                    if(!c14_rem) ok = 0;
                     else {
                         len = rem_len;
                         if(!strcmp(name, "decp")) { size_t n = f[3] ? strtoul(f[3], 0, 10) : 0; if(n < len) len = n; }
-                        tmp = malloc(len ? len : 1); memcpy(tmp, rem, len); buf = tmp;
+                        c14_tmp = malloc(len ? len : 1); memcpy(c14_tmp, c14_rem, len);
                     }
                 }
             }
             if(!ok) fputs("skip 0", out);
             else {
-                lg_enabled = 1;
-                asn_dec_rval_t rv = asn_decode(0, gen_syntax(syn, 1), cur_td, &sptr, buf, len);
-                lg_enabled = 0;
+                asn_dec_rval_t rv;
+                LIBCALL(rv = asn_decode(0, gen_syntax(syn, 1), cur_td, &sptr, c14_tmp, len));
                 fprintf(out, "%s %zu", gen_rc_name(rv.code), rv.consumed);
                 if(rv.consumed > len) fputs("-OVERCONSUMED", out);
                 rem_off += rv.consumed <= len ? rv.consumed : len;
@@ -265,7 +275,6 @@ static int op_hist(int argc, char **argv, FILE *out) {
                 if(!sptr) state = ST_CLEAN;
                 partial = sptr && rv.code != RC_OK;
             }
-            free(tmp);
         } else if(!strcmp(name, "reset")) {
             if(!sptr) fputs("skip 0", out);
             else {
@@ -273,38 +282,33 @@ static int op_hist(int argc, char **argv, FILE *out) {
                 int z = is_zero(sptr, c14_struct_size(cur_td));
                 if(!z) zeroed = 0;
                 fprintf(out, "z%d 0", z);
-                state = ST_CLEAN; partial = 0;
+                state = ST_CLEAN; partial = 1;
             }
         } else if(!strcmp(name, "free")) {
             LIBCALL(ASN_STRUCT_FREE(*cur_td, sptr));
             sptr = 0; state = ST_CLEAN; partial = 0;
             fputs("done 0", out);
         } else if((!strcmp(name, "enc") || !strcmp(name, "encb")) && nf >= 2) {
-            if(!sptr) fputs("skip 0", out);
-            else if(partial && !strcmp(name, "enc")) {
-                /* structure left by a decode that did not complete: encode without the dynamic buffer
-                 * (the region of finding F140, dynamic_encoder_cb memcpy(.., NULL, 0), is entered only by `encb`) */
-                lg_enabled = 1;
-                asn_enc_rval_t er = asn_encode(0, gen_syntax(f[1], 0), cur_td, sptr, c14_null_cb, 0);
-                lg_enabled = 0;
-                if(er.encoded >= 0) fprintf(out, "ok %zd", er.encoded); else fputs("fail 0", out);
-            } else {
-                lg_enabled = 1;
-                asn_encode_to_new_buffer_result_t r = asn_encode_to_new_buffer(0, gen_syntax(f[1], 0), cur_td, sptr);
-                ssize_t n = r.result.encoded;
-                int hadbuf = r.buffer != 0;
-                free(r.buffer);
-                lg_enabled = 0;
+            /* `enc` only on a structure holding a completely decoded value; `encb` on whatever is there
+             * (finding F140: dynamic_encoder_cb memcpy(.., NULL, 0) for a string whose buf is NULL) */
+            if(!sptr || (partial && !strcmp(name, "enc"))) fputs("skip 0", out);
+            else {
+                asn_encode_to_new_buffer_result_t r; ssize_t n; int hadbuf;
+                LIBCALL(r = asn_encode_to_new_buffer(0, gen_syntax(f[1], 0), cur_td, sptr); n = r.result.encoded; hadbuf = r.buffer != 0; free(r.buffer));
                 if(n >= 0 && hadbuf) fprintf(out, "ok %zd", n); else fprintf(out, "fail %d", hadbuf);
             }
-        } else if(!strcmp(name, "print")) {
-            if(!sptr) fputs("skip 0", out);
-            else { LIBCALL(int r = asn_fprint(devnull, cur_td, sptr)); fprintf(out, "%s 0", r == 0 ? "ok" : "fail"); }
-        } else if(!strcmp(name, "check")) {
-            if(!sptr) fputs("skip 0", out);
+        } else if(!strcmp(name, "print") || !strcmp(name, "printf")) {
+            if(!sptr || (partial && !strcmp(name, "print"))) fputs("skip 0", out);
             else {
-                char eb[128]; size_t el = sizeof eb;
-                LIBCALL(int r = asn_check_constraints(cur_td, sptr, eb, &el));
+                int r;
+                LIBCALL(r = asn_fprint(devnull, cur_td, sptr));
+                fprintf(out, "%s 0", r == 0 ? "ok" : "fail");
+            }
+        } else if(!strcmp(name, "check")) {
+            if(!sptr || partial) fputs("skip 0", out);
+            else {
+                char eb[128]; size_t el = sizeof eb; int r;
+                LIBCALL(r = asn_check_constraints(cur_td, sptr, eb, &el));
                 fprintf(out, "%s 0", r == 0 ? "ok" : "fail");
             }
         } else fputs("badstep 0", out);
@@ -322,7 +326,6 @@ static int op_hist(int argc, char **argv, FILE *out) {
                     c14_unknown);
         } else fputs(" | ", out);
     }
-    free(rem);
     lg_release_leaks();
     lg_reset();
     return 1;
@@ -331,17 +334,24 @@ static int op_hist(int argc, char **argv, FILE *out) {
 static int op_fresh_vs_reset(int argc, char **argv, FILE *out) {
     if(argc != 4) { fputs("bad-op", out); return 1; }
     enum asn_transfer_syntax syn = gen_syntax(argv[1], 1);
-    size_t n1, n2; uint8_t *b1 = hx_parse_exact(argv[2], &n1), *b2 = hx_parse_exact(argv[3], &n2);
-    if(!b1 || !b2) { free(b1); free(b2); fputs("bad-op", out); return 1; }
+    size_t n1, n2;
+    free(c14_b1); free(c14_b2);
+    c14_b1 = hx_parse_exact(argv[2], &n1); c14_b2 = hx_parse_exact(argv[3], &n2);
+    if(!c14_b1 || !c14_b2) { fputs("bad-op", out); return 1; }
     lg_reset(); lg_set_trace(0);
+    c14_guard_init();
+    c14_cur_step = 0;
+    if(sigsetjmp(c14_jb, 1)) { c14_report_hang(out); return 1; }
     void *a = 0, *b = 0;
-    lg_enabled = 1;
-    asn_dec_rval_t ra = asn_decode(0, syn, cur_td, &a, b1, n1);
-    asn_dec_rval_t r0 = asn_decode(0, syn, cur_td, &b, b2, n2);
+    asn_dec_rval_t ra, r0, rb;
     int z = 1;
-    if(b) { ASN_STRUCT_RESET(*cur_td, b); z = is_zero(b, c14_struct_size(cur_td)); }
-    asn_dec_rval_t rb = asn_decode(0, syn, cur_td, &b, b1, n1);
-    lg_enabled = 0;
+    LIBCALL(ra = asn_decode(0, syn, cur_td, &a, c14_b1, n1));
+    c14_cur_step = 1;
+    LIBCALL(r0 = asn_decode(0, syn, cur_td, &b, c14_b2, n2));
+    c14_cur_step = 2;
+    if(b) { LIBCALL(ASN_STRUCT_RESET(*cur_td, b)); z = is_zero(b, c14_struct_size(cur_td)); }
+    c14_cur_step = 3;
+    LIBCALL(rb = asn_decode(0, syn, cur_td, &b, c14_b1, n1));
     int same = ra.code == rb.code && ra.consumed == rb.consumed;
     char *da = 0, *db = 0; size_t la = 0, lb = 0;
     if(same && ra.code == RC_OK && a && b) {
@@ -354,13 +364,11 @@ static int op_fresh_vs_reset(int argc, char **argv, FILE *out) {
             gen_rc_name(ra.code), ra.consumed, gen_rc_name(rb.code), rb.consumed, z);
     if(!same && da && db) fprintf(out, " A=%.200s B=%.200s", da, db);
     free(da); free(db);
-    lg_enabled = 1;
-    ASN_STRUCT_FREE(*cur_td, a); ASN_STRUCT_FREE(*cur_td, b);
-    lg_enabled = 0;
+    c14_cur_step = 4;
+    LIBCALL(ASN_STRUCT_FREE(*cur_td, a); ASN_STRUCT_FREE(*cur_td, b));
     long live; size_t bytes; lg_live(&live, &bytes);
     fprintf(out, " live=%ld doublefree=%ld", live, lg_doublefree_count());
     lg_release_leaks(); lg_reset();
-    free(b1); free(b2);
     return 1;
 }
 
